@@ -4,6 +4,7 @@ import (
 	"fmt"
 	"sort"
 	"strings"
+	"sync/atomic"
 
 	"github.com/openziti/foundation/v2/errorz"
 	"github.com/openziti/storage/boltz"
@@ -123,10 +124,16 @@ func (m *sysModel) nameTaken(id, name string) bool {
 	return false
 }
 
+var ctxFlip int64 // alternates between the two ways of obtaining a system context (both must behave the same)
+
 func (sc *sysScenario) buildOps() {
 	ctxOf := func(system bool, ctx boltz.MutateContext) boltz.MutateContext {
 		if system {
-			// the system context is a wrapper around the transaction's context (also: wrapping twice must stay system)
+			// the system context is a wrapper around the transaction's context (also: wrapping twice must stay system);
+			// both ways of obtaining it are used, alternating with every call
+			if atomic.AddInt64(&ctxFlip, 1)%2 == 0 {
+				return boltz.NewSystemMutateContext(boltz.NewSystemMutateContext(ctx))
+			}
 			return ctx.GetSystemContext().GetSystemContext()
 		}
 		return ctx
